@@ -184,6 +184,7 @@ void run_reg(const char *op)
             out_acc(r); out_l_begin(); for (size_t i = 0; i < c.nh; i++) out_l_n(c.handles[i]); out_l_end();
             free(c.script);
             break; }
+        case 12: register_make_bigendian(&t, A(0) != 0); out_s("order"); break;
         case 11:   /* the caller edits the description: register k gets a new address; a new register_init follows */
             if (A(0) < ne) entries[A(0)].address = (RegisterAddress)A(1);
             out_s("edit");
